@@ -465,6 +465,7 @@ func runC02(c *fw.Ctx) {
 	if vsched.DefaultPolicy == 0 {
 		runC02Hist(c)
 	}
+	runC02Download(c)
 	thorough := c.Tier == "thorough"
 	var item int64
 	sampled := 0
@@ -658,6 +659,9 @@ func replayC02(raw json.RawMessage) (string, bool) {
 	json.Unmarshal(raw, &fam)
 	if fam.Family == "c02hist" {
 		return replayC02Hist(raw)
+	}
+	if fam.Family == "c02download" {
+		return replayC02Download(raw)
 	}
 	var r struct {
 		Scenario c02Scenario `json:"scenario"`
